@@ -31,7 +31,7 @@ impl Property for C08 {
         "Cases: copy_range(s..e) with s<=e<=len; split_off(i)/split(i) with i<=len; first()/last(); subject of any zoo type/length/provenance (for Bv: inline and heap-mode sources via the long-then-truncated and spare-capacity provenances). Enumerated: every (s,e) for n<=40 (quick)/140 (thorough) with three value classes on all 18 types (includes s=e and e=n); all values for n<=8 with every (s,e); every split point for every n<=min(C,140)/320. Oracle: list slice; result passes the observer battery; source unchanged (battery); appending the high part to the low part rebuilds the original. Non-trivial: copy_range with 0<s, e<n, s not word-aligned and the slice crossing a storage-word boundary; split with 0<i<n not word aligned. Distinct by hash of the case.".into()
     }
     fn random_cases(&self, tier: Tier) -> u64 {
-        tier.pick(40_000, 400_000)
+        tier.pick(200000, 800000)
     }
     fn strategy(&self, tier: Tier) -> BoxedStrategy<C08Case> {
         let cr = (arb_operand(tier), any::<u16>(), any::<u16>()).prop_map(|(a, f1, f2)| {
